@@ -863,6 +863,56 @@ func runC16(c *Check) {
 		}
 		c.MinInstances("C16-R6", 1)
 	}
+	// ---- R9: the proxy adds no deadline of its own. In-process, the only deadline of a DA call is
+	// the caller's context (the submitter allows an attempt 60 s; a submission answers when the blob
+	// is included or the DA gives up). A transport-level timeout in the client cuts slow but
+	// successful answers short: the caller sees a context-deadline error where the same DA called
+	// directly returns ids (or "not included"), and re-submits blobs that landed.
+	c.Doc("C16-R9", "BO: the JSON-RPC client adds no deadline of its own to a call — no http.Client with a Timeout, no go-jsonrpc timeout option, no context.WithTimeout/WithDeadline in the package: the caller's context is the only deadline, as in-process.")
+	{
+		var bad []string
+		sites := 0
+		for _, fn := range dp.Funcs {
+			pk := fnPkg(fn)
+			if pk == nil || pk.Pkg.Path() != jsonrpcPkg || fn.Blocks == nil {
+				continue
+			}
+			for _, b := range fn.Blocks {
+				for _, in := range b.Instrs {
+					switch x := in.(type) {
+					case *ssa.Call:
+						cn := commonName(x.Common())
+						sites++
+						if strings.HasSuffix(cn, "go-jsonrpc.WithTimeout") || cn == "context.WithTimeout" || cn == "context.WithDeadline" || strings.HasSuffix(cn, "go-jsonrpc.WithHTTPClient") {
+							if strings.HasSuffix(cn, "go-jsonrpc.WithHTTPClient") {
+								continue // judged by the http.Client it is given (below)
+							}
+							bad = append(bad, cn[strings.LastIndex(cn, "/")+1:]+" @"+dp.InstrPos(in))
+						}
+					case *ssa.Store:
+						fa, ok := x.Addr.(*ssa.FieldAddr)
+						if !ok || !strings.HasSuffix(fa.X.Type().String(), "net/http.Client") {
+							continue
+						}
+						if st := derefStruct(fa.X.Type()); st != nil && st.Field(fa.Field).Name() == "Timeout" {
+							if k, isK := x.Val.(*ssa.Const); !isK || k.Value == nil || k.Int64() != 0 {
+								bad = append(bad, "http.Client.Timeout @"+dp.InstrPos(in))
+							}
+						}
+					}
+				}
+			}
+		}
+		sort.Strings(bad)
+		if len(bad) == 0 {
+			c.OK("C16-R9", "client ⟂ no-deadline-of-its-own", "", "", fmt.Sprintf("no transport or context deadline is set anywhere in the proxy package (%d call sites looked at)", sites), true)
+		} else {
+			c.Bad("C16-R9", "client ⟂ no-deadline-of-its-own", "", "", "the proxy sets a deadline of its own ("+strings.Join(bad, ", ")+"): an answer that takes longer — a submission answers only when the blob is included — is cut off with a context-deadline error although the same DA called in-process returns ids or \"not included\"; the caller re-submits blobs that landed", nil)
+		}
+		if sites < 20 {
+			c.Unk("C16-R9", "anchor-count", "", "", fmt.Sprintf("anchor lost: only %d call sites in the proxy package", sites))
+		}
+	}
 	_ = sort.Strings
 }
 
